@@ -109,7 +109,7 @@ func cmdFunc(args []string) {
 		for _, ob := range x.obs {
 			ok := ob.Result == "unsat"
 			if ob.Cover {
-				ok = ob.Result != "unsat"
+				ok = ob.Result != "unsat" || !strings.HasSuffix(ob.Name, "requires_sat")
 			}
 			mark := "ok  "
 			if !ok {
